@@ -219,7 +219,7 @@ func steerDigest(c *vm.Ctx, r *vm.Rand, name string, tries int, shape func(d [20
 	}
 }
 
-func checkDigestOf(c *vm.Ctx, serverID string, secret, key []byte, i int, counts map[string]int) {
+func checkDigestOf(c *vm.Ctx, serverID string, secret, key []byte, i int, counts map[string]int) (agreed bool) {
 	want, d := refDigest(serverID, secret, key)
 	wit := func() any {
 		return map[string]any{"server_id": serverID, "secret": vm.Hex(secret), "public_key": vm.Hex(key), "sha1": hex.EncodeToString(d[:]), "java": want}
@@ -229,7 +229,7 @@ func checkDigestOf(c *vm.Ctx, serverID string, secret, key []byte, i int, counts
 		cli = bot.VerifAuthDigest(serverID, secret, key)
 		srv = auth.VerifAuthDigest(serverID, secret, key)
 	}) {
-		return
+		return false
 	}
 	cls := digestClasses(d)
 	for _, k := range cls {
@@ -238,15 +238,16 @@ func checkDigestOf(c *vm.Ctx, serverID string, secret, key []byte, i int, counts
 	main := cls[len(cls)-1]
 	if cli != srv {
 		c.Violation("digest/client-server-differ/"+main, fmt.Sprintf("client side %q, server side %q", cli, srv), wit())
-		return
+		return false
 	}
 	if cli != want {
 		c.Violation("digest/differs-from-java/"+main, fmt.Sprintf("library %q, new BigInteger(digest).toString(16) = %q", cli, want), wit())
-		return
+		return false
 	}
 	if i < 3 {
 		c.Sample("digest", wit())
 	}
+	return true
 }
 
 // servicesDigest rebuilds the SHA-256 a verifier of the ProfilePublicKey.Data#validateSignature family hashes for a
@@ -429,6 +430,25 @@ func checkOtherKeys(c *vm.Ctx, r *vm.Rand, testServices *rsa.PrivateKey, lengths
 				accepted = p
 			}
 		}
+		// ... and from K in length
+		lengthOK := true
+		for how, K2 := range otherLengths(r, K) {
+			var ok2 bool
+			if c.Guard("sig/other-key", wit, func() { ok2 = user.VerifySignature(K2, sig) }) {
+				lengthOK = false
+				continue
+			}
+			c.Eval(0, false)
+			if ok2 {
+				lengthOK = false
+				w := wit().(map[string]any)
+				w["other_key"], w["other_key_hex"] = how, vm.Hex(K2)
+				c.Violation("sig/forgery-accepted/signature-issued-for-a-key-of-another-length/"+how, fmt.Sprintf("a signature issued for a %d-byte profile key is accepted for the %d-byte key made from it (%s)", L, len(K2), how), w)
+			}
+		}
+		if lengthOK {
+			c.Cover("other-key.of-another-length-rejected")
+		}
 		if accepted >= 0 {
 			w := wit().(map[string]any)
 			w["other_key_differs_at_byte"] = accepted
@@ -468,6 +488,7 @@ func run(c *vm.Ctx) {
 	}
 	c.Cover("uuid.ok")
 	checkUUIDConcurrent(c, ur, c.Scale(20000, 400000))
+	timed("uuid-lengths", func() { checkUUIDLengths(c, ur) })
 	dr := c.Rand("digest")
 	counts := map[string]int{}
 	nd := c.Scale(1000000, 30000000)
@@ -485,6 +506,8 @@ func run(c *vm.Ctx) {
 	if c.Thorough() && c.Shard == 0 {
 		steerDigest(c, dr, "negative-three-trailing-zero-bytes", 1<<29, func(d [20]byte) bool { return d[0]&0x80 != 0 && d[19] == 0 && d[18] == 0 && d[17] == 0 }, counts)
 	}
+	timed("digest-sizes", func() { checkDigestSizes(c, dr, counts) })
+	timed("digest-concurrent", func() { checkDigestConcurrent(c, dr, c.Scale(40000, 800000)) })
 	for k, v := range counts {
 		c.CoverN("digest."+k, int64(v))
 	}
@@ -507,6 +530,7 @@ func run(c *vm.Ctx) {
 		return
 	}
 	c.Cover(fmt.Sprintf("layout.%d", layout))
+	timed("verify-concurrent", func() { checkVerifyConcurrent(c, sr, services, c.Scale(4000, 160000)) })
 	var lengths []int
 	if c.Thorough() {
 		for L := 1 + c.Shard; L <= 2400; L += c.NShards {
@@ -520,5 +544,5 @@ func run(c *vm.Ctx) {
 			lengths = append(lengths, sr.Range(1, 2400))
 		}
 	}
-	checkOtherKeys(c, sr, services, lengths)
+	timed("other-keys (whole)", func() { checkOtherKeys(c, sr, services, lengths) })
 }
